@@ -59,8 +59,17 @@ type Rule struct {
 	Typ string `json:"typ"`
 	Cls string `json:"cls"`
 	ID  string `json:"id"`
+	Pre []Comp `json:"pre"` // compounds left of the subject of the first member, each followed by its combinator
 	Alt []Sel  `json:"alt"`
 	D   []Decl `json:"d"`
+}
+
+// Comp is a compound selector followed by a combinator (">" child, " " descendant).
+type Comp struct {
+	Typ  string `json:"typ"`
+	Cls  string `json:"cls"`
+	ID   string `json:"id"`
+	Comb string `json:"comb"`
 }
 type Doc struct {
 	Unit  string `json:"unit"`
@@ -385,7 +394,19 @@ func Serialise(d *Doc) string {
 				b.WriteString("<style>")
 				spaced := (ser[3]/3)%2 == 1
 				for _, r := range d.Rules {
-					sel := Sel{r.Typ, r.Cls, r.ID}.String()
+					sel := ""
+					for _, c := range r.Pre {
+						sel += Sel{c.Typ, c.Cls, c.ID}.String()
+						switch {
+						case c.Comb == ">" && spaced:
+							sel += " > "
+						case c.Comb == ">":
+							sel += ">"
+						default:
+							sel += " "
+						}
+					}
+					sel += Sel{r.Typ, r.Cls, r.ID}.String()
 					for _, a := range r.Alt {
 						if spaced {
 							sel += ", " + a.String()
